@@ -124,8 +124,12 @@ func toEv(e event.Event) Ev {
 			ev = &Ev{10, fields(e, "tftp.filename", "tftp.mode")}
 		} else if ty == "tftp-write" {
 			ev = &Ev{11, fields(e, "tftp.filename", "tftp.mode")}
+		} else if ty == "tftp-write-file" {
+			content := make([]byte, len(e.Get("tftp.file-hex"))/2)
+			fmt.Sscanf(e.Get("tftp.file-hex"), "%x", &content)
+			ev = &Ev{20, []hx.B{hx.B(e.Get("tftp.filename")), hx.B(e.Get("tftp.mode")), hx.B(content)}}
 		} else {
-			ev = &Ev{19, nil}
+			ev = &Ev{97, nil}
 		}
 	case "counterstrike":
 		ev = &Ev{12, fields(e, "counterstrike.query", "payload")}
